@@ -8,6 +8,7 @@ package main
 import (
 	"fmt"
 	"os"
+	"runtime"
 	"strings"
 	"time"
 
@@ -86,6 +87,18 @@ func main() {
 					job{0, runCfg{"drain", w, cancel, 1, 4, 2, 1, 2}.String()},
 					job{0, runCfg{"pending", w, cancel, 1, 6, 0, 2, 3}.String()})
 			}
+		}
+		ncpu := runtime.NumCPU()
+		for _, w := range []int{1, 2*ncpu + 1, 3 * ncpu} {
+			for _, cancel := range []bool{false, true} {
+				jobs = append(jobs, job{0, runCfg{"busy", w, cancel, 1, 1, 1, 2, 4}.String()})
+			}
+		}
+		for _, w := range []int{1, 3} {
+			jobs = append(jobs,
+				job{0, runCfg{"gpending-none", w, true, 1, 6, 0, 1, 5}.String()},
+				job{0, runCfg{"gpending-true", w, true, 1, 6, 0, 1, 6}.String()},
+				job{0, runCfg{"gpending-false", w, false, 1, 6, 0, 1, 7}.String()})
 		}
 		for _, d := range groupCorpus() {
 			jobs = append(jobs, job{0, d})
